@@ -1,6 +1,7 @@
 package mysql
 
 import (
+	"os"
 	"testing"
 
 	"verif/harness/internal/ev"
@@ -8,6 +9,9 @@ import (
 
 // TestLayerDev runs the layer alone (development aid until the lead wires Layer into the C19 monitor); evidence goes to $VERIF_ROOT.
 func TestLayerDev(t *testing.T) {
+	if os.Getenv("VERIF_ROOT") == "" {
+		t.Skip("set VERIF_ROOT to a scratch directory (evidence and replay files are written there); see notes/mysql-rig.md")
+	}
 	r := ev.New("C19", "exploration")
 	Layer(r)
 	r.Distinct("dev-run")
